@@ -82,21 +82,22 @@ def check_eval(ID_, name, ev, tau_sign, timeout):
         total = E.add(total, V('e0_wc'))
     acc_start = t0
     for i in range(N):
-        ncalls = sum(1 for k in g.ints if k.startswith('e0_s%d_k' % i) and k.endswith('.i'))
+        ncalls = sum(1 for k in g.ints if k.startswith('E@s%d_k' % i) and k.endswith('.i'))
         sc.check('segment %d: running cost called K+1 = %d times' % (i, K + 1), ncalls == K + 1, 'called %d times' % ncalls)
         for k in range(K + 1):
             n = 'e0_s%d_k%d' % (i, k)
-            if n + '.t' not in g.outs:
+            rn = 'E@s%d_k%d' % (i, k)
+            if rn + '.t' not in g.outs:
                 continue
-            sc.int_eq('sample (%d,%d): segment index' % (i, k), n + '.i', i)
+            sc.int_eq('sample (%d,%d): segment index' % (i, k), rn + '.i', i)
             tl = E.scale(T[i], Fraction(k, K))
-            sc.real_eq('sample (%d,%d): local time == (k/K) T_i' % (i, k), n + '.t', tl)
-            sc.real_eq('sample (%d,%d): global time == t0 + sum_{j<i} T_j + t' % (i, k), n + '.tg', E.add(acc_start, tl))
+            sc.real_eq('sample (%d,%d): local time == (k/K) T_i' % (i, k), rn + '.t', tl)
+            sc.real_eq('sample (%d,%d): global time == t0 + sum_{j<i} T_j + t' % (i, k), rn + '.tg', E.add(acc_start, tl))
             for q, an in enumerate(X.ARGN):
                 for dd in range(d):
                     cf = [E.out('SP.c.%d.%d' % (i * nc + m, dd)) for m in range(nc)]
                     spec = C.polyval_spec(E, cf, tl, q) if q < nc else R.VZERO
-                    sc.real_eq('sample (%d,%d): %s[%d] == derivative %d of the published piece at t' % (i, k, an, dd, q), '%s.%s.%d' % (n, an, dd), spec)
+                    sc.real_eq('sample (%d,%d): %s[%d] == derivative %d of the published piece at t' % (i, k, an, dd, q), '%s.%s.%d' % (rn, an, dd), spec)
             w = Fraction(1, 2) if k in (0, K) else Fraction(1)
             total = E.add(total, E.mul(E.scale(T[i], w / K), V(n + '_c')))
         acc_start = E.add(acc_start, T[i])
@@ -104,16 +105,19 @@ def check_eval(ID_, name, ev, tau_sign, timeout):
         total = E.add(total, E.mul(V('rho'), E.out('EN')))
     sc.real_eq('cost == time cost + %strapezoid integral (K=%d) %s' % ('waypoint cost + ' if three else '', K, '+ rho * energy' if ev.rho_mode == 'pos' else '(no energy term: weight not positive)'), 'E.cost', total)
     # what the time / waypoint functors received
-    sc.int_eq('time cost received N durations', 'e0.Ts.n', N)
+    sc.int_eq('time cost received N durations', 'E@Ts.n', N)
     for i in range(N):
-        sc.uf_eq('time cost argument %d is the decoded duration' % i, 'e0.Ts.%d' % i, 'SP.seg.%d' % i)
+        if 'E@Ts.%d' % i in g.outs:
+            sc.uf_eq('time cost argument %d is the decoded duration' % i, 'E@Ts.%d' % i, 'SP.seg.%d' % i)
     if three:
-        sc.int_eq('waypoint cost received N+1 rows', 'e0.W.rows', N + 1)
+        sc.int_eq('waypoint cost called exactly once', 'E@W.calls', 1)
+        sc.int_eq('waypoint cost received N+1 rows', 'E@W.rows', N + 1)
         for i in range(N + 1):
             for dd in range(d):
-                sc.uf_eq('waypoint cost argument (%d,%d) is the decoded waypoint' % (i, dd), 'e0.W.%d.%d' % (i, dd), 'SP.pts.%d.%d' % (i, dd))
+                if 'E@W.%d.%d' % (i, dd) in g.outs:
+                    sc.uf_eq('waypoint cost argument (%d,%d) is the decoded waypoint' % (i, dd), 'E@W.%d.%d' % (i, dd), 'SP.pts.%d.%d' % (i, dd))
     else:
-        sc.check('2-cost overload: no waypoint functor call', 'e0.W.rows' not in g.ints)
+        sc.check('2-cost overload: no waypoint functor call', 'E@W.rows' not in g.ints)
     return [sc]
 
 
